@@ -88,6 +88,7 @@ def explore(ctx):
         ctx.count(f'reduce:k={len(sc["files"])}:cache={"off" if sc["cfg"]["no_cache"] else "on"}:exit={o.code}')
         if o.accepted and any(rc != 0 for (_c, rc, _w, _l) in o.testlog):
             ctx.nontriv(repr((sc['files'], sc['group'], sc['rules'], sc['cfg'], sc['sched'])))
+    real_lines(ctx, rnd)
     ctx.sample({'reduce_scenario': {k: red[0][2][k] for k in ('files', 'group', 'rules', 'cfg', 'sched')}, 'impl_output': red[0][1][:40]})
     for nm, fn, cs in (('c01e', 'sc_run_each', each), ('c01r', 'sc_reduce', red)):
         bad = coq.corr_eval(nm, IMPORTS, fn, [(a, b) for a, b, _ in cs], shard=100)
@@ -98,8 +99,39 @@ def explore(ctx):
             ctx.broke('correspondence', f'Driver model ({fn}) vs real driver', f'scenario {cs[b][2]} impl output {cs[b][1]}')
 
 
+def real_lines(ctx, rnd):
+    """LinesPass.new() reformats the test case IN PLACE in the working directory (topformflat stand-in) and must put
+    the file back unless the sanity check accepts a reformatted variant: run through the real run_pass with tests that
+    accept / reject the reformatted text."""
+    import os
+    from cvise.passes.lines import LinesPass
+    standin = os.path.join(os.environ.get('VERIF_ROOT', '/verif'), 'tools', 'standins', 'topformflat')
+    texts = ['int a;int b;\nint c; { x; y; }\n', '  f() { g(); }   h;\n\n i;', 'x;y;z;']
+    for text in texts:
+        for arg in ('0', '1', '2', '10'):
+            for rules in ([([('has', 0, ';int b')], 0), ([('has', 0, 'x;y;z')], 0), ([('has', 0, ' }   h')], 0)],     # only the ORIGINAL layout is interesting
+                          [([('has', 0, ';')], 0)],                                                                     # anything with a ';' is interesting
+                          [([('has', 0, ';int b')], 0), ([('has', 0, 'x;y')], 0), ([('has', 0, 'g(); }')], 0), ([('has', 0, 'b;\n')], 0)]):
+                for k in (1, 2):
+                    files = [('t.c', text), ('d/u.c', 'keep;\n')][:k]
+                    sc = {'files': files, 'rules': rules, 'passes': [], 'cfg': {'N': rnd.choice([1, 2, 3]), 'no_cache': True},
+                          'sched': [rnd.randint(0, 7) for _ in range(20)], 'real_pass': f'lines::{arg}'}
+                    p = LinesPass(arg, {'topformflat': standin})
+                    p.max_transforms = None
+                    o = driver.run_scenario(sc, ctx.tmp, real_passes=[p])
+                    ctx.evaluations += 1
+                    ctx.count('real-lines-pass')
+                    if o.diverged:
+                        continue
+                    if oracle(ctx, sc, o, 'each') and any(rc != 0 for (_c, rc, _w, _l) in o.testlog):
+                        ctx.nontriv(repr(('lines', arg, text, rules, k)))
+
+
 def replay(ctx, payload):
     r = payload['replay']
+    if r['scenario'].get('real_pass'):
+        real_lines(ctx, random.Random(1))
+        return
     o = driver.run_scenario(r['scenario'], ctx.tmp, mode=r['mode'])
     print('replay: output', o.out)
     oracle(ctx, r['scenario'], o, r['mode'])
